@@ -10,7 +10,7 @@ from gen.inputs import LenientGen
 from checks.c04 import CODE_TABLE
 
 PID = "C14"
-CONFIGS = {0: "C", 1: "global xx_XX", 2: "thread xx_XX", 3: "global+thread xx_XX"}
+CONFIGS = {0: "C", 1: "global xx_XX", 2: "thread xx_XX", 3: "global+thread xx_XX", 4: "C, while the environment (LC_ALL, LANG) names xx_XX"}
 MON = re.compile(r"loc_same=(\d) fmt_same=(\d) strtod_same=(\d) loc_live=(-?\d+) created=(\d+) freed=(\d+) foreign=(\d+)")
 
 
@@ -60,7 +60,7 @@ def shard_fn(shard, nshards, seed, tier, exe, ntexts, ntrees):
                     rng.choice(["", ".0", ".1", ".3", ".17"]) + rng.choice("feEgGf") + rng.choice(["", "", "y", ">", " units"])).encode()
         trees.append((toks, rng.randrange(64), rfmt))
     cases = []
-    for cfg in (0, 1, 2, 3):
+    for cfg in (0, 1, 2, 3, 4):
         cmds = ["LOC %d" % cfg]
         for t, flags, depth, mode in texts:
             if mode == 2 and b"\0" in t:
@@ -82,21 +82,26 @@ def shard_fn(shard, nshards, seed, tier, exe, ntexts, ntrees):
             cmds.append("PUT 0")
         cmds.append("LOC 0")
         cases.append(("%d.cfg%d" % (shard, cfg), cmds))
-    results, crashes = core.run_script(exe, cases, env=dict({"LOCPATH": locale_synth.LOCDIR}, **core.ambient_env(sh, shard)), tag="c14")
+    # the reference (configuration 0) runs in a silent environment; all others run with an ENVIRONMENT that names the comma locale: whoever asks for the locale "" gets it
+    amb = core.ambient_env(sh, shard)
+    results, crashes = core.run_script(exe, cases[:1], env=dict({"LOCPATH": locale_synth.LOCDIR}, **amb), tag="c14")
+    r2, c2 = core.run_script(exe, cases[1:], env=dict({"LOCPATH": locale_synth.LOCDIR, "LC_ALL": "xx_XX", "LANG": "xx_XX"}, **amb), tag="c14")
+    results.update(r2)
+    crashes += c2
     cmdmap = dict(cases)
     for cr in crashes:
         kind, frame = cr.summary()
         i = min(len(cr.partial), len(cmdmap[cr.cid]) - 1)
-        sh.violation("C14/%s/%s" % (kind, frame), "crash (%s) at %s under %s" % (kind, cmdmap[cr.cid][i][:100], cr.cid), {"driver": "jcdrv", "variant": "asan", "env": {"LOCPATH": locale_synth.LOCDIR}, "script": [cmdmap[cr.cid][0], cmdmap[cr.cid][i]], "stderr": cr.stderr[-2500:]})
+        sh.violation("C14/%s/%s" % (kind, frame), "crash (%s) at %s under %s" % (kind, cmdmap[cr.cid][i][:100], cr.cid), {"driver": "jcdrv", "variant": "asan", "env": {"LOCPATH": locale_synth.LOCDIR, "LC_ALL": "xx_XX", "LANG": "xx_XX"}, "script": [cmdmap[cr.cid][0], cmdmap[cr.cid][i]], "stderr": cr.stderr[-2500:]})
     base = results.get("%d.cfg0" % shard)
     if base is None:
         raise core.Inconclusive("C-locale reference run did not complete")
-    for cfg in (0, 1, 2, 3):
+    for cfg in (0, 1, 2, 3, 4):
         lines = results.get("%d.cfg%d" % (shard, cfg))
         if lines is None:
             continue
         cmds = cmdmap["%d.cfg%d" % (shard, cfg)]
-        exp_fmt = "1.5" if cfg == 0 else "1,5"
+        exp_fmt = "1.5" if cfg in (0, 4) else "1,5"
         if ("fmt=" + exp_fmt) not in lines[0]:
             raise core.Inconclusive("locale configuration %s not in effect: %s (LOCPATH=%s)" % (CONFIGS[cfg], lines[0], locale_synth.LOCDIR))
         for ci, (cmd, ln, bl) in enumerate(zip(cmds[1:-1], lines[1:-1], base[1:-1]), 1):
@@ -110,7 +115,7 @@ def shard_fn(shard, nshards, seed, tier, exe, ntexts, ntrees):
                 while j > 0 and not cmds[j].startswith("B "):
                     j -= 1
                 pre = cmds[j:ci]
-            rep = {"driver": "jcdrv", "variant": "asan", "env": {"LOCPATH": locale_synth.LOCDIR}, "script": [cmds[0]] + pre + [cmd], "locale": CONFIGS[cfg]}
+            rep = {"driver": "jcdrv", "variant": "asan", "env": {"LOCPATH": locale_synth.LOCDIR, "LC_ALL": "xx_XX", "LANG": "xx_XX"}, "script": [cmds[0]] + pre + [cmd], "locale": CONFIGS[cfg]}
             res, _, mon = ln.partition(" | ")
             bres = bl.partition(" | ")[0]
             m = MON.search(mon)
